@@ -909,7 +909,16 @@ func (f *frame) execInstr(instr ssa.Instruction, pc *Term, st State) {
 			f.vals[x] = Val{Tuple: vs, Typ: x.Type()}
 			break
 		}
-		f.vals[x] = f.freshVal(x.Name(), x.Type(), st)
+		sv := f.freshVal(x.Name(), x.Type(), st)
+		if len(sv.Tuple) > 0 && sv.Tuple[0].T != nil {
+			// the chosen case index: one of the states, or -1 (default) when non-blocking
+			lo := c.idxConst(0)
+			if !x.Blocking {
+				lo = c.intConst(big.NewInt(-1), types.Typ[types.Int])
+			}
+			c.addHyp(Implies(pc, And(c.cmp(token.LEQ, lo, sv.Tuple[0].T, true), c.cmp(token.LSS, sv.Tuple[0].T, c.idxConst(int64(len(x.States))), true))))
+		}
+		f.vals[x] = sv
 		f.c.note("select in " + funcKey(f.fn) + " returns an arbitrary case")
 	default:
 		panic(fmt.Sprintf("unsupported instruction %T: %s", instr, instr))
